@@ -16,6 +16,8 @@
 //!   let mut B = <..>::Request::builder() {.uri(E) | .method(E) | .header(K, HeaderValue::from_static(CONST))}*;
 //!   let S = p.and_then(|v| if [!]v.is_empty() { X } else { Y });      {X, Y} = {Some(J), None},
 //!                                        J = v.iter().map(|s| M).collect[::<..>]().join("lit")
+//!     or the fold it stands for: `let mut S = None; if let Some(xs) = p { for x in xs { match S { None => S = Some(M),
+//!                                        Some(ref mut j) => { j.push('c') | j.push_str("lit"); j.push_str(M); } } } }`   (join_fold)
 //!   let mut P [: T] = p;                                              the accumulator starts as parameter p
 //!   P.push(("lit", V));   |   if let Some([ref] x) = E { P.push(("lit", V)); .. }
 //!   match (p, q) { arm* }      arm  := pat [| pat]* => { (let | push | if-let-push | B = B.header(K, HV);)* }
@@ -24,6 +26,8 @@
 //!                              STR  := format!("..{}..", STR, ..) | ENGINE.encode(STR)
 //!                                    | <..>::byte_serialize(STR.as_bytes()).collect[::<..>]() | E
 //!   P.extend_from_slice(C) | P.extend(C)     C = p.iter().map(|(k, v)| (k.as_ref(), v.as_ref())) {.collect..|.as_slice()}*
+//!     or `for (k, v) in p { P.push((k.as_ref(), v.as_ref())); }`;  `P.reserve(n);` is skipped (capacity only)
+//!   text may also be built in a local String (str_stmt) and the header value by a private function (header_value)
 //!   let x = E;                                                        name for E
 //!   tail: B.body(<..>::Serializer::new(String::new()).extend_pairs(P).finish().into_bytes())
 //! Anything else is a translation failure.
@@ -32,11 +36,13 @@ use crate::{fail, lean, Sources, R};
 
 const EP: &str = "endpoint.rs";
 
+#[derive(Clone, PartialEq)]
 pub enum Val {
     Lit(String),
     Src(String),
 }
 
+#[derive(Clone, PartialEq)]
 pub struct Push {
     pub name: String,
     pub value: Val,
@@ -58,6 +64,7 @@ pub struct Prepare {
     pub on_error: String,
 }
 
+#[derive(Clone)]
 pub enum StrExpr {
     Lit(String),
     Var(String),
@@ -94,13 +101,19 @@ pub enum Stmt {
 
 /// ("lit", V) → (name, value)
 fn pair(file: &str, item: &str, env: &Env, e: &syn::Expr) -> R<(String, Val)> {
+    // a pair may be named first (`let p = ("name", value);`)
+    let named = match ident_of(e) {
+        Some(id) => env.map.get(&id).cloned(),
+        None => None,
+    };
+    let e = named.as_ref().unwrap_or(e);
     if let syn::Expr::Tuple(t) = strip(e) {
         if t.elems.len() == 2 {
             if let Some(name) = str_lit(&t.elems[0]) {
                 let v = &t.elems[1];
                 let val = match str_lit(v) {
                     Some(l) => Val::Lit(l),
-                    None => Val::Src(canon(strip_ref(&env.resolve(v)))),
+                    None => Val::Src(canon(text_view(&env.resolve(v)))),
                 };
                 return Ok((name, val));
             }
@@ -119,7 +132,71 @@ fn push_call<'a>(acc: &str, e: &'a syn::Expr) -> Option<&'a syn::Expr> {
     None
 }
 
-/// `P.push(..);` or `if let Some(x) = E { P.push(..); .. }` → pushes; None when the statement has another shape
+/// the pushes of the body of `if let Some(x) = E { .. }` / of the `Some(x)` arm of a `match E`
+fn cond_pushes(file: &str, item: &str, env: &Env, acc: &str, binder: &str, scrut_e: &syn::Expr, body: &[syn::Stmt]) -> R<Vec<Push>> {
+    let scrut = canon(text_view(&env.resolve(scrut_e)));
+    let mut inner = env.with_rename(binder, "it");
+    let mut out = Vec::new();
+    for s in body {
+        if let syn::Stmt::Local(l) = s {
+            if let Some((nm, false, init)) = plain_let(l) {
+                inner.bind(&nm, init);
+                continue;
+            }
+        }
+        let t = match s {
+            syn::Stmt::Expr(x, _) => push_call(acc, x),
+            _ => None,
+        };
+        match t {
+            Some(t) => {
+                let (name, value) = pair(file, item, &inner, t)?;
+                out.push(Push { name, value, cond: Some(scrut.clone()) });
+            }
+            None => return fail(file, item, format!("only `{acc}.push((\"name\", value));` inside `if let Some(..) = {scrut}`")),
+        }
+    }
+    if out.is_empty() {
+        return fail(file, item, "at least one push inside the `if let`");
+    }
+    Ok(out)
+}
+
+fn is_unit(e: &syn::Expr) -> bool {
+    match strip(e) {
+        syn::Expr::Tuple(t) => t.elems.is_empty(),
+        syn::Expr::Block(b) => b.block.stmts.is_empty(),
+        _ => false,
+    }
+}
+
+fn body_stmts(e: &syn::Expr) -> Vec<syn::Stmt> {
+    match strip(e) {
+        syn::Expr::Block(b) if b.label.is_none() => b.block.stmts.clone(),
+        other => vec![syn::Stmt::Expr(other.clone(), None)],
+    }
+}
+
+/// `match E { Some([ref] x) => A, None | _ => B }` → (x, A, B)
+fn option_match(m: &syn::ExprMatch) -> Option<(String, &syn::Expr, &syn::Expr)> {
+    if m.arms.len() != 2 || m.arms.iter().any(|a| a.guard.is_some()) {
+        return None;
+    }
+    let mut some = None;
+    let mut none = None;
+    for arm in &m.arms {
+        if let Some(b) = pat_some(&arm.pat) {
+            some = Some((b, &*arm.body));
+        } else if pat_is_none(&arm.pat) || matches!(arm.pat, syn::Pat::Wild(_)) {
+            none = Some(&*arm.body);
+        }
+    }
+    let (b, a) = some?;
+    Some((b, a, none?))
+}
+
+/// `P.push(..);`, `if let Some(x) = E { P.push(..); .. }` or `match E { Some(x) => { P.push(..); }, None => {} }` → pushes;
+/// None when the statement has another shape
 fn push_stmt(file: &str, item: &str, env: &Env, acc: &str, st: &syn::Stmt) -> R<Option<Vec<Push>>> {
     let e = match st {
         syn::Stmt::Expr(e, _) => e,
@@ -135,35 +212,19 @@ fn push_stmt(file: &str, item: &str, env: &Env, acc: &str, st: &syn::Stmt) -> R<
                 Some(b) => b,
                 None => return fail(file, item, format!("`if let Some([ref] x) = E`, found pattern `{}`", canon(&l.pat))),
             };
-            if i.else_branch.is_some() {
-                return fail(file, item, "`if let Some(x) = E { push.. }` without `else`");
-            }
-            let scrut = canon(strip_ref(&env.resolve(&l.expr)));
-            let mut inner = env.with_rename(&binder, "it");
-            let mut out = Vec::new();
-            for s in &i.then_branch.stmts {
-                if let syn::Stmt::Local(l) = s {
-                    if let Some((nm, false, init)) = plain_let(l) {
-                        inner.bind(&nm, init);
-                        continue;
-                    }
-                }
-                let t = match s {
-                    syn::Stmt::Expr(x, _) => push_call(acc, x),
-                    _ => None,
-                };
-                match t {
-                    Some(t) => {
-                        let (name, value) = pair(file, item, &inner, t)?;
-                        out.push(Push { name, value, cond: Some(scrut.clone()) });
-                    }
-                    None => return fail(file, item, format!("only `{acc}.push((\"name\", value));` inside `if let Some(..) = {scrut}`")),
+            if let Some((_, els)) = &i.else_branch {
+                if !is_unit(els) {
+                    return fail(file, item, "`if let Some(x) = E { push.. }` without `else`");
                 }
             }
-            if out.is_empty() {
-                return fail(file, item, "at least one push inside the `if let`");
+            return Ok(Some(cond_pushes(file, item, env, acc, &binder, &l.expr, &i.then_branch.stmts)?));
+        }
+    }
+    if let syn::Expr::Match(m) = strip(e) {
+        if let Some((binder, a, b)) = option_match(m) {
+            if is_unit(b) {
+                return Ok(Some(cond_pushes(file, item, env, acc, &binder, &m.expr, &body_stmts(a))?));
             }
-            return Ok(Some(out));
         }
     }
     Ok(None)
@@ -176,7 +237,94 @@ fn vec_pairs(file: &str, item: &str, env: &Env, elems: &[syn::Expr]) -> R<Vec<Pu
         .collect()
 }
 
-fn prepare(file: &str, owner: &str, f: &syn::ImplItemFn, ep_params: &[String]) -> R<Prepare> {
+/// a vector-valued expression:
+///   vec![("lit", V), ..]  |  Vec::new()  |  Vec::with_capacity(..)
+///   match E { Some([ref] x) => VEC, None => VEC }  |  if let Some([ref] x) = E { VEC } else { VEC }
+/// For the two-armed forms the `None` list must be what remains of the `Some` list when some elements are left out;
+/// those elements are the ones pushed `if let Some(it) = E`.
+fn vec_expr(file: &str, item: &str, env: &Env, e: &syn::Expr) -> R<Option<Vec<Push>>> {
+    let e = strip(e);
+    if let Some(elems) = vec_macro(e) {
+        return Ok(Some(vec_pairs(file, item, env, &elems)?));
+    }
+    if let syn::Expr::Call(c) = e {
+        let f = canon(&c.func);
+        if (f.ends_with("Vec::new") && c.args.is_empty()) || (f.ends_with("Vec::with_capacity") && c.args.len() == 1) {
+            return Ok(Some(Vec::new()));
+        }
+    }
+    let two: Option<(String, &syn::Expr, Vec<syn::Stmt>, Vec<syn::Stmt>)> = match e {
+        syn::Expr::Match(m) => option_match(m).map(|(b, x, y)| (b, &*m.expr, body_stmts(x), body_stmts(y))),
+        syn::Expr::If(i) => match (strip(&i.cond), &i.else_branch) {
+            (syn::Expr::Let(l), Some((_, els))) => pat_some(&l.pat).map(|b| (b, &*l.expr, i.then_branch.stmts.clone(), body_stmts(els))),
+            _ => None,
+        },
+        _ => None,
+    };
+    if let Some((binder, scrut_e, some_body, none_body)) = two {
+        let tail_of = |b: &[syn::Stmt], env: &Env| -> R<Option<Vec<Push>>> {
+            let mut env = env.clone();
+            for (k, st) in b.iter().enumerate() {
+                match st {
+                    syn::Stmt::Local(l) if k + 1 < b.len() => match plain_let(l) {
+                        Some((nm, false, init)) => env.bind(&nm, init),
+                        _ => return Ok(None),
+                    },
+                    syn::Stmt::Expr(x, None) if k + 1 == b.len() => return vec_expr(file, item, &env, x),
+                    _ => return Ok(None),
+                }
+            }
+            Ok(None)
+        };
+        let scrut = canon(text_view(&env.resolve(scrut_e)));
+        let with = match tail_of(&some_body, &env.with_rename(&binder, "it"))? {
+            Some(v) => v,
+            None => return Ok(None),
+        };
+        let without = match tail_of(&none_body, env)? {
+            Some(v) => v,
+            None => return Ok(None),
+        };
+        let mut out = Vec::new();
+        let mut rest = without.as_slice();
+        for p in with {
+            if rest.first() == Some(&p) {
+                rest = &rest[1..];
+                out.push(p);
+            } else if p.cond.is_none() {
+                out.push(Push { cond: Some(scrut.clone()), ..p });
+            } else {
+                return fail(file, item, format!("the two vectors of `match {scrut}` to differ only in elements present when it is `Some`"));
+            }
+        }
+        if !rest.is_empty() {
+            return fail(file, item, format!("the `None` vector of `match {scrut}` to be the `Some` vector without the conditional elements"));
+        }
+        return Ok(Some(out));
+    }
+    Ok(None)
+}
+
+/// the error constructor of `.map_err(..)`: `|e| <Path>(..)`, or the name of a private function `fn h(e) -> _ { <Path>(..) }`
+fn on_error_of(src: &syn::File, arg: &syn::Expr) -> Option<String> {
+    if let Some((_, body)) = closure1(arg) {
+        if let syn::Expr::Call(c) = body {
+            return Some(canon(&c.func));
+        }
+        return None;
+    }
+    let name = last_segment(arg)?;
+    let h = free_fn(src, &name)?;
+    if param_names(&h.sig).len() != 1 {
+        return None;
+    }
+    match expr_body(&h.block)? {
+        syn::Expr::Call(c) => Some(canon(&c.func)),
+        _ => None,
+    }
+}
+
+fn prepare(file: &str, src: &syn::File, owner: &str, f: &syn::ImplItemFn, ep_params: &[String]) -> R<Prepare> {
     let item = format!("{owner}::prepare_request");
     let item = item.as_str();
     let mut env = Env::default();
@@ -189,14 +337,15 @@ fn prepare(file: &str, owner: &str, f: &syn::ImplItemFn, ep_params: &[String]) -
     for st in &f.block.stmts[..n - 1] {
         match st {
             syn::Stmt::Local(l) => match plain_let(l) {
-                Some((name, is_mut, init)) if is_mut || vec_macro(init).is_some() => match vec_macro(init) {
-                    Some(elems) if acc.is_none() => {
-                        pushes = vec_pairs(file, item, &env, &elems)?;
+                Some((name, is_mut, init)) => match vec_expr(file, item, &env, init)? {
+                    Some(ps) if acc.is_none() => {
+                        pushes = ps;
                         acc = Some(name);
                     }
-                    _ => return fail(file, item, "at most one `let [mut] <params> = vec![(\"name\", value), ..];`"),
+                    Some(_) => return fail(file, item, "at most one `let [mut] <params> = vec![(\"name\", value), ..];`"),
+                    None if is_mut => return fail(file, item, format!("`let mut {name} = vec![..] | Vec::new() | match <option> {{ Some(x) => vec![..], None => vec![..] }};`")),
+                    None => env.bind(&name, init),
                 },
-                Some((name, _, init)) => env.bind(&name, init),
                 None => return fail(file, item, format!("`let x = E;` or `let mut params = vec![..];`, found `{}`", canon(l))),
             },
             other => {
@@ -212,6 +361,7 @@ fn prepare(file: &str, owner: &str, f: &syn::ImplItemFn, ep_params: &[String]) -
         }
     }
     let tail = match &f.block.stmts[n - 1] {
+        syn::Stmt::Expr(syn::Expr::Return(r), _) if r.expr.is_some() => &**r.expr.as_ref().unwrap(),
         syn::Stmt::Expr(e, None) => e,
         _ => return fail(file, item, "a tail expression `endpoint_request(..)[.map_err(..)]`"),
     };
@@ -220,12 +370,8 @@ fn prepare(file: &str, owner: &str, f: &syn::ImplItemFn, ep_params: &[String]) -
     match calls.as_slice() {
         [] => {}
         [m] if m.method == "map_err" && m.args.len() == 1 => {
-            // |err| <Path>(..)
-            if let Some((_, body)) = closure1(&m.args[0]) {
-                if let syn::Expr::Call(c) = body {
-                    on_error = canon(&c.func);
-                }
-            }
+            // |err| <Path>(..)   or a private function that is that closure
+            on_error = on_error_of(src, &m.args[0]).unwrap_or_default();
             if on_error.is_empty() {
                 return fail(file, item, "`.map_err(|e| <Error constructor>(..))` after `endpoint_request(..)`");
             }
@@ -280,8 +426,176 @@ fn header_name(e: &syn::Expr) -> String {
     canon(strip_ref(e))
 }
 
+/// text being built in a local `String` (`let mut s = String::new(); s.push_str(..); ..`): its pieces so far
+#[derive(Default, Clone)]
+struct StrVars(std::collections::BTreeMap<String, Vec<StrExpr>>);
+
+/// pieces → right-nested concatenation (the shape `format!` pieces get)
+fn fold_pieces(pieces: &[StrExpr]) -> StrExpr {
+    let mut it = pieces.iter().rev();
+    let mut accu = match it.next() {
+        Some(p) => p.clone(),
+        None => return StrExpr::Lit(String::new()),
+    };
+    for p in it {
+        accu = StrExpr::Cat(Box::new(p.clone()), Box::new(accu));
+    }
+    accu
+}
+
+fn flatten(e: StrExpr, out: &mut Vec<StrExpr>) {
+    match e {
+        StrExpr::Cat(a, b) => {
+            flatten(*a, out);
+            flatten(*b, out);
+        }
+        StrExpr::Lit(l) if l.is_empty() => {}
+        other => out.push(other),
+    }
+}
+
+/// `form_urlencoded::byte_serialize(<text>.as_bytes())` → text
+fn byte_serialize_arg(e: &syn::Expr) -> Option<&syn::Expr> {
+    if let syn::Expr::Call(c) = strip(e) {
+        if last_segment(&c.func).as_deref() == Some("byte_serialize") && c.args.len() == 1 {
+            if let syn::Expr::MethodCall(ab) = strip_ref(&c.args[0]) {
+                if ab.method == "as_bytes" && ab.args.is_empty() {
+                    return Some(&ab.receiver);
+                }
+            }
+        }
+    }
+    None
+}
+
+/// a statement that builds text in a local `String`:
+///   let mut s = String::new() | String::with_capacity(..) | String::from("lit") | "lit".to_string();
+///   s.push('c');  s.push_str(STR);  s += STR;  s.extend(<..>::byte_serialize(STR.as_bytes()));  ENGINE.encode_string(STR, &mut s);
+/// → true when the statement was one of these
+fn str_stmt(file: &str, item: &str, env: &Env, vars: &mut StrVars, st: &syn::Stmt) -> R<bool> {
+    match st {
+        syn::Stmt::Local(l) => {
+            if let Some((name, true, init)) = plain_let(l) {
+                let ic = canon(init);
+                if ic == "String::new()" || ic.starts_with("String::with_capacity(") {
+                    vars.0.insert(name, Vec::new());
+                    return Ok(true);
+                }
+                let lit = match strip(init) {
+                    syn::Expr::Call(c) if canon(&c.func) == "String::from" && c.args.len() == 1 => str_lit(&c.args[0]),
+                    syn::Expr::MethodCall(m) if m.args.is_empty() && matches!(m.method.to_string().as_str(), "to_string" | "to_owned" | "into") => str_lit(&m.receiver),
+                    _ => None,
+                };
+                if let Some(l) = lit {
+                    vars.0.insert(name, vec![StrExpr::Lit(l)]);
+                    return Ok(true);
+                }
+            }
+            Ok(false)
+        }
+        syn::Stmt::Expr(e, _) => {
+            match strip(e) {
+                syn::Expr::MethodCall(m) => {
+                    let name = m.method.to_string();
+                    if let Some(v) = ident_of(&m.receiver).filter(|v| vars.0.contains_key(v)) {
+                        let mut add = Vec::new();
+                        match (name.as_str(), m.args.len()) {
+                            ("push", 1) => match strip(&m.args[0]) {
+                                syn::Expr::Lit(l) => match &l.lit {
+                                    syn::Lit::Char(c) => add.push(StrExpr::Lit(c.value().to_string())),
+                                    _ => return fail(file, item, format!("`{v}.push('<char literal>')`")),
+                                },
+                                _ => return fail(file, item, format!("`{v}.push('<char literal>')`")),
+                            },
+                            ("push_str", 1) => flatten(str_expr(file, item, env, vars, &m.args[0])?, &mut add),
+                            ("extend", 1) => match byte_serialize_arg(&m.args[0]) {
+                                Some(x) => add.push(StrExpr::ByteSerialize(Box::new(str_expr(file, item, env, vars, x)?))),
+                                None => return fail(file, item, format!("`{v}.extend(<..>::byte_serialize(<text>.as_bytes()))`, found `{}`", canon(&m.args[0]))),
+                            },
+                            ("reserve", 1) => {}
+                            _ => return Ok(false),
+                        }
+                        vars.0.get_mut(&v).unwrap().extend(add);
+                        return Ok(true);
+                    }
+                    // ENGINE.encode_string(STR, &mut s)
+                    if name == "encode_string" && m.args.len() == 2 {
+                        if let (Some(engine), Some(v)) = (last_segment(&m.receiver), ident_of(strip_ref(&m.args[1])).filter(|v| vars.0.contains_key(v))) {
+                            let x = str_expr(file, item, env, vars, &m.args[0])?;
+                            vars.0.get_mut(&v).unwrap().push(StrExpr::Base64(engine, Box::new(x)));
+                            return Ok(true);
+                        }
+                    }
+                    Ok(false)
+                }
+                syn::Expr::Binary(b) if matches!(b.op, syn::BinOp::AddAssign(_)) => {
+                    if let Some(v) = ident_of(&b.left).filter(|v| vars.0.contains_key(v)) {
+                        let mut add = Vec::new();
+                        flatten(str_expr(file, item, env, vars, &b.right)?, &mut add);
+                        vars.0.get_mut(&v).unwrap().extend(add);
+                        return Ok(true);
+                    }
+                    Ok(false)
+                }
+                _ => Ok(false),
+            }
+        }
+        _ => Ok(false),
+    }
+}
+
+/// HV := HeaderValue::from_str(STR)[.unwrap() | .expect(..)]
+///     | h(E, ..)     h a private function of endpoint.rs: `(let x = E; | <text-building statement>)* HV`, read in place
+fn header_value(file: &str, item: &str, src: &syn::File, env: &Env, vars: &StrVars, e: &syn::Expr, depth: usize) -> R<StrExpr> {
+    let (root, calls) = chain(e);
+    if let syn::Expr::Call(c) = root {
+        if canon(&c.func).ends_with("HeaderValue::from_str") && c.args.len() == 1 && calls.len() <= 1 && calls.iter().all(|m| m.method == "unwrap" || m.method == "expect") {
+            return str_expr(file, item, env, vars, &c.args[0]);
+        }
+        if let (Some(hn), true, true) = (ident_of(&c.func), calls.is_empty(), depth > 0) {
+            if let Some(h) = free_fn(src, &hn) {
+                let params = param_names(&h.sig);
+                if matches!(h.vis, syn::Visibility::Inherited) && params.len() == c.args.len() && params.len() == h.sig.inputs.len() {
+                    let mut inner = Env::default();
+                    for (p, a) in params.iter().zip(c.args.iter()) {
+                        inner.map.insert(p.clone(), env.resolve(strip_ref(a)));
+                    }
+                    let mut hv = StrVars::default();
+                    let n = h.block.stmts.len();
+                    for (k, st) in h.block.stmts.iter().enumerate() {
+                        if k + 1 == n {
+                            if let syn::Stmt::Expr(t, None) = st {
+                                return header_value(file, item, src, &inner, &hv, t, depth - 1);
+                            }
+                            if let syn::Stmt::Expr(syn::Expr::Return(r), _) = st {
+                                if let Some(t) = &r.expr {
+                                    return header_value(file, item, src, &inner, &hv, t, depth - 1);
+                                }
+                            }
+                        }
+                        if str_stmt(file, item, &inner, &mut hv, st)? {
+                            continue;
+                        }
+                        match st {
+                            syn::Stmt::Local(l) => match plain_let(l) {
+                                Some((nm, false, init)) => inner.bind(&nm, init),
+                                _ => return fail(file, item, format!("`let x = E;` or a text-building statement in `{hn}`, found `{}`", canon(l))),
+                            },
+                            other => return fail(file, item, format!("`let x = E;` or a text-building statement in `{hn}`, found `{}`", canon(other))),
+                        }
+                    }
+                }
+            }
+        }
+    }
+    fail(file, item, format!("`HeaderValue::from_str(<text>)[.unwrap()]` (directly or as the result of a private function), found `{}`", canon(e)))
+}
+
 /// STR grammar
-fn str_expr(file: &str, item: &str, env: &Env, e: &syn::Expr) -> R<StrExpr> {
+fn str_expr(file: &str, item: &str, env: &Env, vars: &StrVars, e: &syn::Expr) -> R<StrExpr> {
+    if let Some(p) = ident_of(strip_ref(e)).and_then(|id| vars.0.get(&id)) {
+        return Ok(fold_pieces(p));
+    }
     let r = env.resolve(e);
     let e = strip_ref(&r);
     if let Some(l) = str_lit(e) {
@@ -319,11 +633,11 @@ fn str_expr(file: &str, item: &str, env: &Env, e: &syn::Expr) -> R<StrExpr> {
                             None => return fail(file, item, format!("an argument for every `{{}}` of {fmt:?}")),
                         };
                         next += 1;
-                        pieces.push(str_expr(file, item, env, a)?);
+                        pieces.push(str_expr(file, item, env, vars, a)?);
                     } else if lean::ident_ok(&inner) || inner.chars().all(|c| c.is_ascii_alphanumeric() || c == '_') {
                         let id = syn::Ident::new(&inner, proc_macro2::Span::call_site());
                         let a: syn::Expr = syn::parse_quote!(#id);
-                        pieces.push(str_expr(file, item, env, &a)?);
+                        pieces.push(str_expr(file, item, env, vars, &a)?);
                     } else {
                         return fail(file, item, format!("only `{{}}` and `{{name}}` placeholders (plain Display) in {fmt:?}"));
                     }
@@ -356,7 +670,7 @@ fn str_expr(file: &str, item: &str, env: &Env, e: &syn::Expr) -> R<StrExpr> {
         if m.method == "encode" && m.args.len() == 1 {
             if let Some(engine) = last_segment(&m.receiver) {
                 if engine.chars().all(|c| c.is_ascii_uppercase() || c.is_ascii_digit() || c == '_') {
-                    return Ok(StrExpr::Base64(engine, Box::new(str_expr(file, item, env, &m.args[0])?)));
+                    return Ok(StrExpr::Base64(engine, Box::new(str_expr(file, item, env, vars, &m.args[0])?)));
                 }
             }
         }
@@ -366,7 +680,7 @@ fn str_expr(file: &str, item: &str, env: &Env, e: &syn::Expr) -> R<StrExpr> {
                 if last_segment(&c.func).as_deref() == Some("byte_serialize") && c.args.len() == 1 {
                     if let syn::Expr::MethodCall(ab) = strip_ref(&c.args[0]) {
                         if ab.method == "as_bytes" && ab.args.is_empty() {
-                            return Ok(StrExpr::ByteSerialize(Box::new(str_expr(file, item, env, &ab.receiver)?)));
+                            return Ok(StrExpr::ByteSerialize(Box::new(str_expr(file, item, env, vars, &ab.receiver)?)));
                         }
                     }
                     return fail(file, item, format!("`byte_serialize(<text>.as_bytes())`, found `{}`", canon(c)));
@@ -397,7 +711,115 @@ fn sub_pat(file: &str, item: &str, p: &syn::Pat) -> R<(String, Option<String>)> 
     }
 }
 
-fn endpoint(f: &syn::ItemFn, lib: &syn::File) -> R<(Vec<String>, Vec<Stmt>)> {
+/// drops a trailing copy (`.to_string()`, `.to_owned()`, `.clone()`, `String::from(..)`) and text views: what text is meant
+fn text_core(e: &syn::Expr) -> String {
+    let e = text_view(e);
+    match e {
+        syn::Expr::MethodCall(m) if m.args.is_empty() && matches!(m.method.to_string().as_str(), "to_string" | "to_owned" | "clone" | "into_owned") => text_core(&m.receiver),
+        syn::Expr::Call(c) if canon(&c.func) == "String::from" && c.args.len() == 1 => text_core(&c.args[0]),
+        e => canon(e),
+    }
+}
+
+/// the join written as a fold over an `Option<String>` accumulator S (declared `let mut S = None;` just before):
+///   if let Some(xs) = <param> { for x in xs[.iter()] {
+///       match S { None => S = Some(ELEM), Some(ref mut j) => { j.push('c') | j.push_str("sep"); j.push_str(ELEM'); } } } }
+/// ELEM and ELEM' must be the same text of x.  It is `<param>.and_then(|xs| if !xs.is_empty() { Some(xs.iter().map(|x|
+/// ELEM).collect().join(sep)) } else { None })`: nothing for an absent or empty list, otherwise the elements separated by sep.
+fn join_fold(item: &str, acc_name: &str, params: &[String], st: &syn::Stmt) -> R<Option<Stmt>> {
+    let shape = "`if let Some(xs) = <param> { for x in xs { match S { None => S = Some(<elem>), Some(ref mut j) => { j.push(<sep>); j.push_str(<elem>); } } } }`";
+    let i = match st {
+        syn::Stmt::Expr(syn::Expr::If(i), _) if i.else_branch.is_none() => i,
+        _ => return Ok(None),
+    };
+    let (xs, source) = match strip(&i.cond) {
+        syn::Expr::Let(l) => match (pat_some(&l.pat), ident_of(strip_ref(&l.expr)).filter(|p| params.contains(p))) {
+            (Some(xs), Some(src)) => (xs, src),
+            _ => return Ok(None),
+        },
+        _ => return Ok(None),
+    };
+    let fl = match i.then_branch.stmts.as_slice() {
+        [syn::Stmt::Expr(syn::Expr::ForLoop(fl), _)] => fl,
+        _ => return Ok(None),
+    };
+    let x = match pat_binder(&fl.pat) {
+        Some(x) => x,
+        None => return fail(EP, item, shape),
+    };
+    let over = {
+        let (root, calls) = chain(strip_ref(&fl.expr));
+        ident_of(strip_ref(root)).as_deref() == Some(xs.as_str()) && calls.iter().all(|c| c.args.is_empty() && (c.method == "iter" || c.method == "into_iter"))
+    };
+    let m = match fl.body.stmts.as_slice() {
+        [syn::Stmt::Expr(syn::Expr::Match(m), _)] if over => m,
+        _ => return fail(EP, item, shape),
+    };
+    let on_acc = {
+        let sc = strip_ref(&m.expr);
+        let sc = match sc {
+            syn::Expr::MethodCall(mc) if mc.args.is_empty() && (mc.method == "as_mut" || mc.method == "as_deref_mut") => strip_ref(&mc.receiver),
+            e => e,
+        };
+        ident_of(sc).as_deref() == Some(acc_name)
+    };
+    let (j, some_body, none_body) = match option_match(m) {
+        Some(t) if on_acc => t,
+        _ => return fail(EP, item, shape),
+    };
+    let env = Env::default().with_rename(&x, "it");
+    // None => S = Some(ELEM)
+    let first = match block_expr(none_body) {
+        syn::Expr::Assign(a) if ident_of(&a.left).as_deref() == Some(acc_name) => match strip(&a.right) {
+            syn::Expr::Call(c) if last_segment(&c.func).as_deref() == Some("Some") && c.args.len() == 1 => env.resolve(&c.args[0]),
+            _ => return fail(EP, item, shape),
+        },
+        syn::Expr::Block(b) => match b.block.stmts.as_slice() {
+            [syn::Stmt::Expr(syn::Expr::Assign(a), _)] if ident_of(&a.left).as_deref() == Some(acc_name) => match strip(&a.right) {
+                syn::Expr::Call(c) if last_segment(&c.func).as_deref() == Some("Some") && c.args.len() == 1 => env.resolve(&c.args[0]),
+                _ => return fail(EP, item, shape),
+            },
+            _ => return fail(EP, item, shape),
+        },
+        _ => return fail(EP, item, shape),
+    };
+    // Some(j) => { j.push(sep); j.push_str(ELEM'); }
+    let stmts = body_stmts(some_body);
+    let call_on_j = |st: &syn::Stmt| -> Option<(String, syn::Expr)> {
+        if let syn::Stmt::Expr(syn::Expr::MethodCall(mc), _) = st {
+            if ident_of(strip_ref(&mc.receiver)).as_deref() == Some(j.as_str()) && mc.args.len() == 1 {
+                return Some((mc.method.to_string(), mc.args[0].clone()));
+            }
+        }
+        None
+    };
+    let (sep, elem2) = match stmts.as_slice() {
+        [a, b] => match (call_on_j(a), call_on_j(b)) {
+            (Some((ma, sa)), Some((mb, eb))) if mb == "push_str" => {
+                let sep = match (ma.as_str(), strip(&sa)) {
+                    ("push", syn::Expr::Lit(l)) => match &l.lit {
+                        syn::Lit::Char(c) => c.value().to_string(),
+                        _ => return fail(EP, item, shape),
+                    },
+                    ("push_str", e) => match str_lit(e) {
+                        Some(l) => l,
+                        None => return fail(EP, item, shape),
+                    },
+                    _ => return fail(EP, item, shape),
+                };
+                (sep, env.resolve(&eb))
+            }
+            _ => return fail(EP, item, shape),
+        },
+        _ => return fail(EP, item, shape),
+    };
+    if text_core(&first) != text_core(&elem2) {
+        return fail(EP, item, format!("the first element `{}` and the later elements `{}` of the joined text to be the same text", canon(&first), canon(&elem2)));
+    }
+    Ok(Some(Stmt::ScopeValue { name: acc_name.to_string(), source, non_empty_only: true, elem: canon(strip_ref(&first)), sep }))
+}
+
+fn endpoint(f: &syn::ItemFn, lib: &syn::File, src: &syn::File) -> R<(Vec<String>, Vec<Stmt>)> {
     let item = "endpoint_request";
     let params = param_names(&f.sig);
     let is_param = |e: &syn::Expr| ident_of(e).filter(|i| params.contains(i));
@@ -405,11 +827,22 @@ fn endpoint(f: &syn::ItemFn, lib: &syn::File) -> R<(Vec<String>, Vec<Stmt>)> {
     let mut out: Vec<Stmt> = Vec::new();
     let mut builder: Option<String> = None;
     let mut acc: Option<String> = None;
+    // `let mut S = None;` waiting for the loop that fills it (join_fold)
+    let mut fold_acc: Option<String> = None;
     let n = f.block.stmts.len();
     if n == 0 {
         return fail(EP, item, "a non-empty body");
     }
     for st in &f.block.stmts[..n - 1] {
+        if let Some(s_name) = fold_acc.take() {
+            match join_fold(item, &s_name, &params, st)? {
+                Some(sv) => {
+                    out.push(sv);
+                    continue;
+                }
+                None => return fail(EP, item, format!("the loop that fills `{s_name}` right after `let mut {s_name} = None;`")),
+            }
+        }
         // pushes
         if let Some(a) = &acc {
             if let Some(ps) = push_stmt(EP, item, &env, a, st)? {
@@ -423,6 +856,10 @@ fn endpoint(f: &syn::ItemFn, lib: &syn::File) -> R<(Vec<String>, Vec<Stmt>)> {
                     Some(x) => x,
                     None => return fail(EP, item, format!("`let [mut] x [: T] = E;`, found `{}`", canon(l))),
                 };
+                if is_mut && ident_of(init).as_deref() == Some("None") {
+                    fold_acc = Some(name);
+                    continue;
+                }
                 if is_mut {
                     // the accumulator
                     if let Some(src) = is_param(init) {
@@ -578,9 +1015,13 @@ fn endpoint(f: &syn::ItemFn, lib: &syn::File) -> R<(Vec<String>, Vec<Stmt>)> {
                             other => vec![syn::Stmt::Expr(other.clone(), None)],
                         };
                         let mut actions = Vec::new();
+                        let mut svars = StrVars::default();
                         for s in &body {
                             if let Some(ps) = push_stmt(EP, item, &aenv, &a, s)? {
                                 actions.extend(ps.into_iter().map(Action::Push));
+                                continue;
+                            }
+                            if str_stmt(EP, item, &aenv, &mut svars, s)? {
                                 continue;
                             }
                             match s {
@@ -599,16 +1040,7 @@ fn endpoint(f: &syn::ItemFn, lib: &syn::File) -> R<(Vec<String>, Vec<Stmt>)> {
                                         Some(h) => h,
                                         None => return fail(EP, item, format!("`{b} = {b}.header(NAME, VALUE);`, found `{}`", canon(asg))),
                                     };
-                                    let (root, calls) = chain(&h.args[1]);
-                                    let inner = match (root, calls.as_slice()) {
-                                        (syn::Expr::Call(c), []) | (syn::Expr::Call(c), [_]) if canon(&c.func).ends_with("HeaderValue::from_str") && c.args.len() == 1 && calls.iter().all(|m| m.method == "unwrap" || m.method == "expect") => Some(&c.args[0]),
-                                        _ => None,
-                                    };
-                                    let inner = match inner {
-                                        Some(i) => i,
-                                        None => return fail(EP, item, format!("`HeaderValue::from_str(<text>)[.unwrap()]`, found `{}`", canon(&h.args[1]))),
-                                    };
-                                    actions.push(Action::Header(header_name(&h.args[0]), str_expr(EP, item, &aenv, inner)?));
+                                    actions.push(Action::Header(header_name(&h.args[0]), header_value(EP, item, src, &aenv, &svars, &h.args[1], 2)?));
                                 }
                                 other => return fail(EP, item, format!("a let, a push or a header assignment in a match arm, found `{}`", canon(other))),
                             }
@@ -617,6 +1049,32 @@ fn endpoint(f: &syn::ItemFn, lib: &syn::File) -> R<(Vec<String>, Vec<Stmt>)> {
                     }
                     out.push(Stmt::AuthMatch { scrutinee, arms });
                     continue;
+                }
+                // for (k, v) in <parameter>[.iter()] { P.push((K, V)); }     the loop `P.extend(<parameter>.iter().map(|(k, v)| (K, V)))` stands for
+                if let syn::Expr::ForLoop(fl) = e {
+                    let (root, calls) = chain(strip_ref(&fl.expr));
+                    let srcp = is_param(strip_ref(root)).filter(|_| calls.iter().all(|c| c.args.is_empty() && (c.method == "iter" || c.method == "into_iter")));
+                    if let (Some(srcp), Some(a), syn::Pat::Tuple(t)) = (srcp, &acc, &*fl.pat) {
+                        let mut cenv = Env::default();
+                        for (k, p) in t.elems.iter().enumerate() {
+                            if let Some(bn) = pat_binder(p) {
+                                cenv.rename(&bn, &format!("it{k}"));
+                            }
+                        }
+                        if let [syn::Stmt::Expr(x, _)] = fl.body.stmts.as_slice() {
+                            if let Some(t) = push_call(a, x) {
+                                out.push(Stmt::Extend { source: srcp, map: canon(&cenv.resolve(t)) });
+                                continue;
+                            }
+                        }
+                    }
+                    return fail(EP, item, format!("`for (k, v) in <parameter> {{ <params>.push((..)); }}`, found `{}`", canon(e)));
+                }
+                // P.reserve(n): capacity only
+                if let syn::Expr::MethodCall(m) = e {
+                    if m.method == "reserve" && m.args.len() == 1 && acc.is_some() && ident_of(&m.receiver) == acc {
+                        continue;
+                    }
                 }
                 // P.extend_from_slice(C) / P.extend(C)
                 if let syn::Expr::MethodCall(m) = e {
@@ -797,12 +1255,12 @@ pub fn extract(srcs: &Sources) -> R<String> {
         Some(f) => f,
         None => return fail(EP, "endpoint_request", "the function to exist"),
     };
-    let (ep_params, stmts) = endpoint(epf, lib)?;
+    let (ep_params, stmts) = endpoint(epf, lib, ep)?;
     // every inherent `fn prepare_request`, wherever it lives (Props/GenRequest.lean pins owners and files)
     let mut preps = Vec::new();
     for (file, f) in &srcs.files {
         for (owner, func) in inherent_fns(f, "prepare_request") {
-            preps.push(prepare(file, &owner, func, &ep_params)?);
+            preps.push(prepare(file, f, &owner, func, &ep_params)?);
         }
     }
     preps.sort_by(|a, b| a.owner.cmp(&b.owner));
